@@ -1,6 +1,8 @@
 import Toodee.Impl.Serde
 import Toodee.Spec.Inv
 import Toodee.Proofs.SerdeLemmas
+import Toodee.Properties.C10
+import Toodee.Properties.C20
 /-
   C18 — Serialisation round-trips every array.
 
@@ -36,6 +38,14 @@ theorem C18_roundtrip_view (enc : α → JVal) (dec : JVal → Option α) (hcode
     simp [visitLoop, decVec_arr_enc enc dec hcodec, decUsize_num hc, decUsize_num hr]
   unfold serializeView
   rw [deserialize_of_visit dec _ C R cells hv, if_pos ⟨hw, hlen.symm, hz⟩]
+
+/-- **serialising a view as the crate does it** (`VW.serialize`: dimensions, then the `cells()` cursor collected) **and
+    deserialising gives the owned copy of that view** (`TooDee::from(view)`, `VW.toOwned`, characterised cell by cell in
+    C20_from_view) — for every window of every buffer, in both modes -/
+theorem C18_roundtrip_view_cells (m : Mode) (cap : Nat) (enc : α → JVal) (dec : JVal → Option α) (hcodec : ∀ x, dec (enc x) = some x)
+    (v : VW) (buf : List α) (h : v.Inv buf.length) (hcap : buf.length ≤ cap) :
+    ∃ doc t, v.serialize m enc buf = .ok doc ∧ v.toOwned m cap buf = .ok t ∧ deserialize dec doc = .ok t := by
+  sorry
 
 /-- the element codec used by the non-vacuity examples: natural-number literals -/
 private def encNat : Nat → JVal := JVal.num
